@@ -244,7 +244,15 @@ func (im *impl) observe() (obs string, raw string) {
 		sb.WriteString(q(fmt.Sprintf("alive%d", i), func() string { return fmt.Sprint(h.Alive()) }) + " ")
 		sb.WriteString(q(fmt.Sprintf("len%d", i), func() string { return fmt.Sprint(h.Length()) }) + " ")
 		// Queue and NextPC are compared only where the model specifies them; raw keeps them for the state key
-		rb.WriteString(q(fmt.Sprintf("queue%d", i), func() string { return fmt.Sprint(h.Queue()) }) + " ")
+		rb.WriteString(q(fmt.Sprintf("queue%d", i), func() string {
+			qs := h.Queue()
+			out := fmt.Sprint(qs)
+			// the returned slice belongs to the caller: overwriting it must not reach the simulator
+			for k := range qs {
+				qs[k] = 12345
+			}
+			return out
+		}) + " ")
 		rb.WriteString(q(fmt.Sprintf("next%d", i), func() string {
 			pc, err := h.NextPC()
 			if err != nil {
